@@ -21,7 +21,7 @@ CHECKS = {
    note="Trusted: harness/src/layout.rs as the transcription of the released layout (validated against files written by the pinned tree)."),
  "C11": dict(engine="seq", cat="exploration", ref="§5 C11",
    technique="model-based property testing with a virtual clock steered to expiry-1ns/expiry/expiry+1ns",
-   text="TTL writes through every API, clock moves onto expiry boundaries, flush/reopen in between; no value-reading call may return an expired generation, unexpired ones are never missing, expiry and value survive flush, restart and TTL-only updates.",
+   text="TTL writes through every API, clock moves onto expiry boundaries, flush/reopen in between; no value-reading call may return an expired generation, unexpired ones are never missing, expiry and value survive flush, restart and TTL-only updates. A second campaign recovers codec-synthesised images (expired newest generations next to older ones, in both scan orders) against an independent newest-wins/expiry oracle.",
    note="Trusted: clock hook, model. Sweeper and crash parts are judged by the concurrency/crash engines when registered."),
  "C12": dict(engine="seq", cat="exploration", ref="§5 C12",
    technique="property testing of timestamp monotonicity invariants over generated histories (many keys, explicit/automatic mixes, restarts), observed through the peek hook",
@@ -29,11 +29,11 @@ CHECKS = {
    note="Trusted: peek hook. One listed known finding (clock-shard saturation) is excluded by construction and counted."),
  "C13": dict(engine="seq", cat="exploration", ref="§5 C13",
    technique="model-based property testing of the accounting invariant (exact equality after every call) under tight memory limits",
-   text="memory_usage()/len() must equal the model's sum after every call of generated sequences incl. flush, reopen, expiry; OutOfMemory exactly when the limit would be exceeded and without side effects.",
+   text="memory_usage()/len() must equal the model's sum after every call of generated sequences incl. flush, reopen, expiry; OutOfMemory exactly when the limit would be exceeded and without side effects. A second campaign reopens crash images of generated workloads and requires exact accounting right after recovery.",
    note="Trusted: size_of::<Record>() as the documented fixed overhead. Concurrent limit enforcement is judged by the concurrency engine when registered."),
  "C14": dict(engine="seq", cat="exploration", ref="§5 C14",
    technique="model-based property testing of range queries (bounds/limits/tiers/expired entries) against the ordered reference map",
-   text="Every generated range query must return exactly the model's live unexpired keys in range, ordered, first `limit`, with current values, on every tier; both indexes must agree after every step.",
+   text="Every generated range query must return exactly the model's live unexpired keys in range, ordered, first `limit`, with current values, on every tier; both indexes must agree after every step. A concurrent campaign races scanners with writers creating/deleting keys next to stable keys (steered schedules): order, bounds, limit, genuine values, stable keys inside the returned window exactly once, deleted-before-scan keys absent, and index agreement at quiescence.",
    note="Trusted: model. Concurrent scan guarantees are judged by the concurrency engine when registered."),
  "C16": dict(engine="seq", cat="exploration", ref="§5 C16",
    technique="differential property testing (same generated program with cache on and off, both vs. the reference model)",
@@ -71,11 +71,17 @@ CHECKS = {
    technique="property testing of live write-behind: generated bursts on stores with 1..8 workers, polling through the snapshot hook, durable image rebuilt from the I/O trace and decoded by the independent codec",
    text="Without explicit flush every accepted write/delete (and the retirement of superseded, deleted and swept generations) must reach the device within a generous bound for every shard/worker count, with idle and busy neighbours and buffer-filling bursts; the fsync-covered image must hold the final values.",
    note="Timing property: the verdict bound is 15 s + measured stalls and must reproduce twice; the nominal 2 s bound is reported as a statistic only. Liveness beyond the explored schedules is not established."),
+ "C07": dict(engine="conc", cat="exploration", ref="§5 C07",
+   technique="stateful concurrent property testing: generated multi-threaded programs steered through named scheduling points (jitter tables / bounded parks), histories judged by a WGL linearizability checker against the last-writer-wins specification with the two permitted relaxations",
+   text="Thousands of generated programs (2-4 threads, explicit dense timestamps or automatic ones, memory-only and persistent with a flushing thread) are executed under generated schedules; each per-key history must have a linearization, with conservative OlderTimestamp / CAS no-swap / StaleExtent admitted only when a genuinely overlapping or earlier-invoked accepted modification exists.",
+   note="Schedule space is sampled and steered, not enumerated; a recorded history is judged deterministically but re-execution is not bit-reproducible. Trusted: harness/src/lin.rs (specification + search)."),
+ "C08": dict(engine="conc", cat="exploration", ref="§5 C08",
+   technique="concurrent property testing with a generation-window oracle over self-identifying values, plus a device-write vs. parked-reader overlap check through the I/O and scheduling hooks",
+   text="Readers race one-writer-per-key updates/deletes/TTL changes, a flushing thread, retirement and immediate block reuse on tiny devices; every returned value must be one complete generation inside the [completed-before, started-after] window, not-found/StaleExtent only when justified, sole-modifier increments and swaps exact, and no device write may hit an extent while a reader is parked between locating and reading it.",
+   note="Schedule space sampled and steered. The no-overwrite clause is checked for readers parked at the after_sector_load point."),
 }
 
 NOT_YET = {
- "C07": "concurrency engine not registered yet (in construction)",
- "C08": "concurrency engine not registered yet (in construction)",
  "C18": "termination checks not registered yet (in construction)",
  "C20": "sanitizer runs not registered yet (in construction)",
 }
